@@ -126,3 +126,14 @@ def take_links():
     out = list(LINKS)
     del LINKS[:]
     return out
+
+
+def reveal_at(name, defn, *args):
+    """the definitional link  atom(args) == definition(args)  as a formula (to reveal a hidden predicate at chosen
+    arguments inside a proof; conservative: the atom *is* its definition)"""
+    zs = [a.e if isinstance(a, Sym) else lift(a).e for a in args]
+    key = (name, tuple(str(z.sort()) for z in zs))
+    if key not in _PRED_FNS:
+        _PRED_FNS[key] = z3.Function(f"P_{name}_{len(_PRED_FNS)}", *[z.sort() for z in zs], z3.BoolSort())
+    atom = _PRED_FNS[key](*zs)
+    return mkbool(atom == z3_bool(defn(*args)))
